@@ -162,12 +162,14 @@ func runC11(c *Ctx) {
 			}
 		})
 	}
-	// the interpreter core: executeOne and the functions it is split into (ext_e.go)
+	// the interpreter core: executeOne and the functions it is split into (ext_e.go); the counter may
+	// also live in a helper of the core that counts on every path and is called by the core only: a
+	// call of that helper is then the counter (opCounter, ext_x6.go)
 	core := c.execCoreOf(fn)
+	oc := c.opCounter(ia)
 	var gate *ssa.BasicBlock
-	gf := fn // the member that holds the counter and the budget test
-	if len(numOpsStores) == 1 && core.in[numOpsStores[0].Parent()] {
-		st := numOpsStores[0]
+	gf := fn // the function that holds the counter
+	if st := oc.home(); st != nil {
 		gf = st.Parent()
 		ok := false
 		if bo, isB := st.Val.(*ssa.BinOp); isB && bo.Op == token.ADD {
@@ -182,17 +184,24 @@ func runC11(c *Ctx) {
 		for _, s := range numOpsStores {
 			where = append(where, c.fname(s.Parent())+" at "+c.pos(s.Pos()))
 		}
-		c.fail("L1-COUNTER", fnName, "single writer of NumOps", fn.Pos(), fmt.Sprintf("Interpreter.NumOps must be written exactly once, in executeOne (or a function executeOne is split into); found %d stores: %s", len(numOpsStores), strings.Join(where, ", ")))
+		c.fail("L1-COUNTER", fnName, "single writer of NumOps", fn.Pos(), fmt.Sprintf("Interpreter.NumOps must be written exactly once, in executeOne (or a function executeOne is split into, or a helper of these that counts on every path and has no other callers); found %d stores: %s", len(numOpsStores), strings.Join(where, ", ")))
 	}
-	// non-interference: MaxOps read only in the function that holds the budget test
-	var foreign []string
-	for _, r := range maxOpsReads {
-		if r.Parent() != gf {
-			foreign = append(foreign, c.fname(r.Parent())+" at "+c.pos(r.Pos()))
+	// non-interference: MaxOps is read only by the budget test: in the functions in which the decision
+	// table of the gate (below) consulted it
+	gateReads := map[*ssa.Function]bool{gf: true}
+	noninterference := func() {
+		var foreign []string
+		for _, r := range maxOpsReads {
+			if !gateReads[r.Parent()] {
+				foreign = append(foreign, c.fname(r.Parent())+" at "+c.pos(r.Pos()))
+			}
 		}
+		c.check(len(foreign) == 0 && len(maxOpsReads) > 0, "L1-NONINTERFERENCE", fnName, "MaxOps read only by the budget gate", fn.Pos(),
+			fmt.Sprintf("%d reads, all in the function of the budget test", len(maxOpsReads)), "Interpreter.MaxOps is read outside the budget gate ("+strings.Join(foreign, ", ")+"): the budget can then influence results other than by stopping the run")
 	}
-	c.check(len(foreign) == 0 && len(maxOpsReads) > 0, "L1-NONINTERFERENCE", fnName, "MaxOps read only by the budget gate", fn.Pos(),
-		fmt.Sprintf("%d reads, all in the function of the budget test", len(maxOpsReads)), "Interpreter.MaxOps is read outside the budget gate ("+strings.Join(foreign, ", ")+"): the budget can then influence results other than by stopping the run")
+	if gate == nil {
+		noninterference()
+	}
 	for _, s := range maxOpsStores {
 		k, isC := constInt(s.Val)
 		c.check(isC && k > 0, "L1-BUDGETSET", c.fname(s.Parent()), "MaxOps = positive constant", s.Pos(), fmt.Sprintf("MaxOps = %d", k), "a library reader sets MaxOps to a value that is not a positive constant, so it may run without a budget")
@@ -209,17 +218,22 @@ func runC11(c *Ctx) {
 				env := func(v ssa.Value) (int64, bool) {
 					v = origin(v)
 					if isFieldLoad(v, ia.T, "MaxOps") {
+						if ld, ok := v.(*ssa.UnOp); ok {
+							gateReads[ld.Parent()] = true
+						}
 						return m, true
 					}
 					if isFieldLoad(v, ia.T, "NumOps") {
-						if ld, ok := v.(*ssa.UnOp); ok && dominatesInstr(st, ld) {
+						if ld, ok := v.(*ssa.UnOp); ok && (ld.Parent() == st.Parent() && dominatesInstr(st, ld) || ld.Parent() != st.Parent() && oc.afterCount(ld)) {
 							return n, true
 						}
 						return n - 1, true
 					}
 					return 0, false
 				}
-				out := c.walkGate(gate, env)
+				// the walk starts at the counter and follows the result of a counting helper into its callers
+				gw := &gateWalker{oc: oc, sentinel: c.spkg("postscript").Var("ErrExecutionLimitExceeded"), env: env, bound: map[ssa.Value]gateVal{}}
+				out := gw.walk(gate, 0)
 				want := "continue"
 				if m > 0 && n > m {
 					want = "sentinel"
@@ -231,12 +245,13 @@ func runC11(c *Ctx) {
 		}
 		c.check(bad == "", "L1-GATE", fnName, "budget test ≡ MaxOps>0 ∧ NumOps>MaxOps → ErrExecutionLimitExceeded", st.Pos(),
 			fmt.Sprintf("decision table over %d (MaxOps,NumOps) cells", cells), "the budget test is not `MaxOps > 0 && NumOps > MaxOps → return ErrExecutionLimitExceeded`: "+bad)
+		noninterference()
 
 		// placement: every dispatch (dynamic builtin call, load) in a member of the core is executed
 		// only after the gate: dominated by it in the gate's own function, elsewhere in a function that is
 		// only entered after the gate; every cycle of a member's CFG that avoids the gate block contains a
 		// call of a member
-		isGate := func(b *ssa.BasicBlock) bool { return b == gate }
+		isGate := oc.marked
 		var disp []ssa.Instruction
 		for _, h := range core.funcs {
 			eachInstr(h, func(ins ssa.Instruction) {
@@ -265,7 +280,7 @@ func runC11(c *Ctx) {
 		}
 		nd := 0
 		for _, d := range disp {
-			if !core.siteAfter(d, st, isGate) {
+			if !oc.siteAfter(d) {
 				nd++
 				c.fail("L1-PLACEMENT", fnName, "budget gate dominates dispatch", d.Pos(), "an operator can be dispatched ("+c.pos(d.Pos())+") on a path that does not pass the operation counter and budget test")
 			}
@@ -276,7 +291,7 @@ func runC11(c *Ctx) {
 		var cyc []int
 		cycIn := fn
 		for _, h := range core.funcs {
-			if cy := cycleAvoiding(h, func(b *ssa.BasicBlock) bool { return b == gate || core.callsMember(b) }); cy != nil && cyc == nil {
+			if cy := cycleAvoiding(h, func(b *ssa.BasicBlock) bool { return isGate(b) || core.callsMember(b) }); cy != nil && cyc == nil {
 				cyc, cycIn = cy, h
 			}
 		}
@@ -437,7 +452,9 @@ func runC11(c *Ctx) {
 			switch {
 			case isC && b:
 				c.ok("L3-CALLER", c.fname(f), "executeOne(…, true)", call.Pos(), "constant true: gated", "")
-			case f == ia.execScanner && isC && !b:
+			case isC && !b && len(call.Common().Args) >= 2 && c.tokenFromScanner(call.Common().Args[1]):
+				// the token loop, whichever function holds it: the object is the token the scanner delivered;
+				// every way into that function is examined by L3-EEXEC
 				c.ok("L3-CALLER", c.fname(f), "executeOne(token, false) in the token loop", call.Pos(), "token loop; re-entry bounded by L3-EEXEC", "")
 			default:
 				c.fail("L3-CALLER", c.fname(f), "executeOne flag", call.Pos(), "executeOne is called with a flag that is not the constant true outside the token loop: the callee does not pass the execution-depth gate")
@@ -450,7 +467,20 @@ func runC11(c *Ctx) {
 	// ---------------- L4: operand stack gate dominates dispatch
 	stackTest := c.stackTests(core, ia)
 	if gate != nil {
-		k, ok := upperBoundConst(domConds(gate), func(v ssa.Value) bool { return lenOfField(v, ia.T, "Stack") })
+		// the blocks of the core in which the operation is counted: the counter's own block, or the
+		// calls of the helper that holds it
+		gblocks := []*ssa.BasicBlock{gate}
+		if !core.in[gf] {
+			gblocks = oc.coreGateBlocks()
+		}
+		k, ok := int64(0), len(gblocks) > 0
+		for _, gb := range gblocks {
+			kk, okk := upperBoundConst(domConds(gb), func(v ssa.Value) bool { return lenOfField(v, ia.T, "Stack") })
+			ok = ok && okk
+			if kk > k {
+				k = kk
+			}
+		}
 		if !ok && len(stackTest) > 0 && core.enteredOnlyAfter(gf, func(b *ssa.BasicBlock) bool { _, is := stackTest[b]; return is }, map[*ssa.Function]bool{}) {
 			// the test was passed before the function of the dispatch was entered
 			ok = true
@@ -531,8 +561,8 @@ func (c *Ctx) uncountedSuccess(ia *interpAnchors, gate *ssa.BasicBlock, core *ex
 	// returns the result of another member hands on what that one decided) must have passed the mark
 	// inside the member, unless the member is only ever entered after the mark was passed.
 	if gate != nil {
-		isGate := func(b *ssa.BasicBlock) bool { return b == gate }
-		avoid := func(b *ssa.BasicBlock) bool { return b == gate || collects(b) }
+		isGate := c.opCounter(ia).marked
+		avoid := func(b *ssa.BasicBlock) bool { return isGate(b) || collects(b) }
 		bad := false
 		for _, h := range core.funcs {
 			if core.enteredOnlyAfter(h, isGate, map[*ssa.Function]bool{}) {
@@ -631,39 +661,6 @@ func (c *Ctx) containsDispatch(g *ssa.Function, ia *interpAnchors, seen map[*ssa
 		}
 	})
 	return found
-}
-
-// walkGate follows the CFG from block b while conditions are decidable
-// from env; returns "sentinel" if it ends in a return of the budget error,
-// "continue" if it reaches a condition it cannot decide, "return" otherwise.
-func (c *Ctx) walkGate(b *ssa.BasicBlock, env func(ssa.Value) (int64, bool)) string {
-	for steps := 0; steps < 50; steps++ {
-		last := b.Instrs[len(b.Instrs)-1]
-		switch last := last.(type) {
-		case *ssa.If:
-			v, ok := evalCond(last.Cond, env)
-			if !ok {
-				return "continue"
-			}
-			if v {
-				b = b.Succs[0]
-			} else {
-				b = b.Succs[1]
-			}
-		case *ssa.Jump:
-			b = b.Succs[0]
-		case *ssa.Return:
-			for _, v := range retValues(last, len(last.Results)-1) {
-				if g := globalLoad(v); g != nil && g.Name() == "ErrExecutionLimitExceeded" {
-					return "sentinel"
-				}
-			}
-			return "return"
-		default:
-			return "continue"
-		}
-	}
-	return "continue"
 }
 
 func evalInt(v ssa.Value, env func(ssa.Value) (int64, bool)) (int64, bool) {
@@ -784,45 +781,30 @@ func cycleAvoiding(fn *ssa.Function, cut func(*ssa.BasicBlock) bool) []int {
 }
 
 // eexecNesting: the only ungated re-entry of the token loop is the eexec
-// operator; it must be refused when already active.
+// operator; it must be refused when already active.  The token loop is the function that hands the
+// scanner's tokens to executeOne (and executeScanner); every chain of calls into it is followed
+// back through plain helpers until it reaches the API entry point or a place that is only reached
+// after a successful BeginEexec (tokenLoopEntries, ext_x6.go).
 func (c *Ctx) eexecNesting(ia *interpAnchors) {
-	reg := c.registry()
-	callers := map[*ssa.Function]bool{}
-	for _, f := range c.modFuncs {
-		if len(staticCalls(f, ia.execScanner)) > 0 {
-			callers[f] = true
+	ch := c.tokenLoopEntries(ia)
+	for _, w := range ch.bad {
+		c.fail("L3-EEXEC", c.fname(w), "token loop re-entry", w.Pos(), "the token loop lives in (or is entered through) a function whose callers are not known: an operator, a function value or an exported function")
+	}
+	begin := c.method("postscript", "scanner", "BeginEexec")
+	behindBegin := false
+	for _, e := range ch.entries {
+		f := e.site.Parent()
+		switch e.kind {
+		case "api":
+			c.ok("L3-EEXEC", c.fname(f), "token loop entered from the API", f.Pos(), "API entry point", "")
+		case "begin":
+			behindBegin = true
+			c.ok("L3-EEXEC", c.fname(f), "re-entry only after BeginEexec succeeded", e.site.Pos(), "dominated by BeginEexec() == nil", "")
+		default:
+			c.fail("L3-EEXEC", c.fname(f), "token loop re-entry", e.site.Pos(), e.detail)
 		}
 	}
-	execute := c.method("postscript", "Interpreter", "Execute")
-	for f := range callers {
-		if f == execute {
-			c.ok("L3-EEXEC", c.fname(f), "token loop entered from the API", f.Pos(), "API entry point", "")
-			continue
-		}
-		e := reg.byFn[f]
-		if e == nil {
-			c.fail("L3-EEXEC", c.fname(f), "token loop re-entry", f.Pos(), "executeScanner is called from a function that is neither the API entry point nor a registered operator")
-			continue
-		}
-		// every call of executeScanner must be dominated by a successful BeginEexec
-		begin := c.method("postscript", "scanner", "BeginEexec")
-		for _, call := range staticCalls(f, ia.execScanner) {
-			okDom := false
-			for _, bc := range staticCalls(f, begin) {
-				bv, isV := bc.(ssa.Value)
-				if !isV || !dominatesInstr(bc, call) {
-					continue
-				}
-				for _, cd := range domConds(call.Block()) {
-					m, ok := asCmp(cd)
-					if ok && m.op == token.EQL && origin(m.x) == bv && isNilConst(m.y) {
-						okDom = true
-					}
-				}
-			}
-			c.check(okDom, "L3-EEXEC", c.fname(f), "re-entry only after BeginEexec succeeded", call.Pos(), "dominated by BeginEexec() == nil",
-				"operator "+e.key+" re-enters the token loop without a successful BeginEexec: nested re-entry is not refused, Go recursion unbounded")
-		}
+	if behindBegin {
 		// BeginEexec refuses when active
 		sT := c.typeObj("postscript", "scanner")
 		refuses := false
